@@ -48,8 +48,16 @@ static int c14RawListenFd = -1;
 static uint16 c14RawPort = 0;
 static bool c14InRun = false;
 
+static unsigned long c14Callbacks = 0;    // callbacks since the last op line
 static void c14LogAdd(const char* fmt, int a, int b)
 {
+  if(++c14Callbacks > 300000)
+  { // e.g. the closing loop never ends: the same client is handed to onClosed over and over
+    fprintf(stderr, "c14: callback storm: more than 300000 callbacks in one run() (last: ");
+    fprintf(stderr, fmt, a, b);
+    fprintf(stderr, ")\n");
+    _exit(3);
+  }
   if(c14LogLen + 64 > sizeof(c14Log)) return;
   if(c14LogLen) c14Log[c14LogLen++] = ' ';
   c14LogLen += (size_t)snprintf(c14Log + c14LogLen, 40, fmt, a, b);
@@ -408,6 +416,7 @@ static bool c14Op(HxLine& l)
                !strcmp(op, "adv") || !strcmp(op, "run") || !strcmp(op, "cfail") || !strcmp(op, "runmt");
   if(!known) return false;
   if(!c14Srv) c14Setup();
+  c14Callbacks = 0;
   long a = 0, b = 0;
   if(hxIs(l, "script", 3))
   {
